@@ -36,6 +36,11 @@ func genC01(r *Rng, tier string) *Plan {
 		o.Mix = KeyMix{EC: 3, Omit: 10}
 		g.P.Meta["large"] = "1"
 	}
+	if r.Chance(1, 30) {
+		o.Wide = r.Range(65, 140)
+		o.MaxEnts, o.Mix = 3, KeyMix{EC: 1, Omit: 8}
+		g.P.Meta["wide"] = fmt.Sprint(o.Wide)
+	}
 	g.AddForest(o, false)
 	// optional profile carrying key-id extensions
 	if r.Chance(1, 3) {
@@ -79,6 +84,17 @@ func genC01(r *Rng, tier string) *Plan {
 		foreign(Pick(r, roots), "foreign-root")
 	}
 	g.Run(DefaultFlags, "gen")
+	if o.Wide > 0 {
+		root := g.Ents[0]
+		first := &EntitySpec{ID: "aaa-first", Name: "aaa-first", Ext: "yaml", Issuer: root.EffAlias(), Subject: []RDN{{"CN", "Sorts First"}}}
+		first.SigAlg = genSigAlg(r, keyFamily(root.KeyAlg), "")
+		g.setEnt(first)
+		g.P.Add(Op{K: "put-ent", Spec: first, Label: "add-child-sorting-first"})
+		nr := editSubject(r, g.ent(root.ID))
+		g.setEnt(nr)
+		g.P.Add(Op{K: "put-ent", Spec: nr, Label: "edit-subject-of-issuer"})
+		g.Run(DefaultFlags, "gen")
+	}
 	extra := r.Intn(4)
 	for i := 0; i < extra; i++ {
 		switch r.Intn(7) {
